@@ -131,24 +131,55 @@ impl Runner<'_> {
         self.rec.case(n, &format!("prog={} {}", e.name, tag));
         self.rec.line(&format!("prog {}", e.term), &format!("ok {}", e.kind));
         let outs = (e.run)(ticks);
+        let mut shown = vec![];
         for (i, (a, b)) in ticks.iter().enumerate() {
-            let o = refint::canon(e.kind, outs[i].clone());
-            self.rec.line(&format!("tick {}|{}", show_ints(a), show_ints(b)), &refint::show_batch(&o));
+            let o = refint::show_batch(&refint::canon(e.kind, outs[i].clone()));
+            self.rec.line(&format!("tick {}|{}", show_ints(a), show_ints(b)), &o);
+            shown.push(o);
         }
         let fin = refint::show_batch(&refint::canon(e.kind, final_of(e.kind, &outs)));
         self.rec.line("final", &fin);
-        // property oracle 1: final output = meaning on the whole inputs (plain Rust iterators)
         let toks: Vec<&str> = e.term.split(' ').collect();
-        let t = refint::parse(&toks).expect("term");
-        let reference = refint::eval(&t, whole).iter().map(|v| v.show()).collect::<Vec<_>>();
-        let reference = refint::show_batch(&refint::canon(e.kind, reference));
-        let root = toks[0].split(':').next().unwrap();
-        if !ticks.is_empty() {
-            self.rec.check(
-                fin == reference,
-                &format!("{}-final-vs-reference@{}", self.mode, root),
-                &format!("prog={} term=`{}` ticks={:?} got={} want={}", e.name, e.term, ticks, fin, reference),
-            );
+        let is_tick = toks[0] == "tick" || toks[0] == "tcyc";
+        let root = toks[if is_tick { 1 } else { 0 }].split(':').next().unwrap().to_string();
+        if is_tick {
+            // property oracle (C30): every tick's output = the list function of that tick's batch(es)
+            // (previous tick for defer/cycle), computed by plain Rust iterators
+            let tp = refint::parse_tick_prog(&toks).expect("tick term");
+            for i in 0..ticks.len() {
+                let want = refint::eval_tick(&tp, &tp.out, &ticks[..=i]).iter().map(|v| v.show()).collect::<Vec<_>>();
+                let want = refint::show_batch(&refint::canon(e.kind, want));
+                self.rec.check(
+                    shown[i] == want,
+                    &format!("{}-tick-vs-reference@{}", self.mode, root),
+                    &format!("prog={} term=`{}` ticks={:?} tick#{} got={} want={}", e.name, e.term, ticks, i, shown[i], want),
+                );
+            }
+            // tick state does not leak: a collection that does not look back gives, in tick i of a long
+            // run, exactly what a fresh instance gives when it sees only that tick (real code vs real code)
+            if tp.next.is_none() && refint::tick_stateless(&tp.out) && ticks.len() >= 2 {
+                for i in 0..ticks.len() {
+                    let alone = (e.run)(&vec![ticks[i].clone()]);
+                    let alone = refint::show_batch(&refint::canon(e.kind, alone[0].clone()));
+                    self.rec.check(
+                        shown[i] == alone,
+                        &format!("{}-state-leak@{}", self.mode, root),
+                        &format!("prog={} term=`{}` ticks={:?} tick#{} in-run={} alone={}", e.name, e.term, ticks, i, shown[i], alone),
+                    );
+                }
+            }
+        } else {
+            // property oracle (C28/C29): final output = meaning on the whole inputs (plain Rust iterators)
+            let t = refint::parse(&toks).expect("term");
+            let reference = refint::eval(&t, whole).iter().map(|v| v.show()).collect::<Vec<_>>();
+            let reference = refint::show_batch(&refint::canon(e.kind, reference));
+            if !ticks.is_empty() {
+                self.rec.check(
+                    fin == reference,
+                    &format!("{}-final-vs-reference@{}", self.mode, root),
+                    &format!("prog={} term=`{}` ticks={:?} got={} want={}", e.name, e.term, ticks, fin, reference),
+                );
+            }
         }
         self.rec.count(&format!("root:{}", root));
         self.rec.count(&format!("kind:{}", e.kind));
@@ -158,6 +189,24 @@ impl Runner<'_> {
         }
         fin
     }
+}
+
+/// a random interleaving of the residue classes (mod 3) of `xs` that keeps each class's own order
+fn key_respecting_shuffle(rng: &mut Rng, xs: &[i64]) -> Vec<i64> {
+    let mut classes: Vec<VecDeque<i64>> = vec![VecDeque::new(); 3];
+    for x in xs {
+        classes[x.rem_euclid(3) as usize].push_back(*x);
+    }
+    let mut out = vec![];
+    loop {
+        let live: Vec<usize> = (0..3).filter(|c| !classes[*c].is_empty()).collect();
+        if live.is_empty() {
+            break;
+        }
+        let c = *rng.pick(&live);
+        out.push(classes[c].pop_front().unwrap());
+    }
+    out
 }
 
 fn gen_input(rng: &mut Rng, max0: u64, max1: u64) -> [Vec<i64>; 2] {
@@ -267,6 +316,17 @@ fn main() {
             let b = weak_split(&mut rng, &whole[1], t);
             parts.push((zip_ticks(a, b), "part=weak".into()));
         }
+        // C29: other interleavings of different keys (each key's own order kept) must give the same per-key results
+        let mut shuffled: Vec<(Ticks, [Vec<i64>; 2])> = vec![];
+        if mode == "c29" && e.tags.split(' ').any(|t| t == "c29x") {
+            for _ in 0..(if thorough { 4 } else { 2 }) {
+                let w2 = [key_respecting_shuffle(&mut rng, &whole[0]), whole[1].clone()];
+                let t = 1 + rng.below(4) as usize;
+                let a = weak_split(&mut rng, &w2[0], t);
+                let b = weak_split(&mut rng, &w2[1], t);
+                shuffled.push((zip_ticks(a, b), w2));
+            }
+        }
         let mut first: Option<String> = None;
         for (ticks, tag) in parts {
             case_no += 1;
@@ -275,13 +335,25 @@ fn main() {
                 None => first = Some(fin),
                 Some(f0) => {
                     let root = e.term.split([' ', ':']).next().unwrap();
-                    run.rec.check(
-                        *f0 == fin,
-                        &format!("{}-partition-dependent@{}", mode, root),
-                        &format!("prog={} term=`{}` ticks={:?} got={} one-tick-run={}", e.name, e.term, ticks, fin, f0),
-                    );
+                    if mode != "c30" {
+                        run.rec.check(
+                            *f0 == fin,
+                            &format!("{}-partition-dependent@{}", mode, root),
+                            &format!("prog={} term=`{}` ticks={:?} got={} one-tick-run={}", e.name, e.term, ticks, fin, f0),
+                        );
+                    }
                 }
             }
+        }
+        for (ticks, w2) in shuffled {
+            case_no += 1;
+            let fin = run.case(case_no, e, &ticks, &w2, "part=interleave");
+            let root = e.term.split([' ', ':']).next().unwrap();
+            run.rec.check(
+                first.as_deref() == Some(fin.as_str()),
+                &format!("{}-cross-key-interleaving@{}", mode, root),
+                &format!("prog={} term=`{}` in0={:?} shuffled={:?} got={} original={:?}", e.name, e.term, whole[0], w2[0], fin, first),
+            );
         }
     }
     // a small malformed stream: the model driver must reject what the harness rejects
